@@ -109,18 +109,22 @@ impl BackwardEngine {
         let mut goal = QueryParser::parse(query_str)
             .map_err(|e| crate::errors::RuleEngineError::ParseError { message: e })?;
 
-        // Check cache if memoization enabled
-        if self.config.enable_memoization {
-            if let Some(cached) = self.goal_manager.is_cached(query_str) {
-                return Ok(if cached {
-                    QueryResult::success(
-                        goal.bindings.to_map(), // Convert Bindings to HashMap
-                        ProofTrace::from_goal(&goal),
-                        QueryStats::default(),
-                    )
-                } else {
-                    QueryResult::failure(vec![], QueryStats::default())
-                });
+        // Check cache if memoization enabled. The verdict depends on the facts as well as
+        // on the query text, so both are part of the key. Only negative verdicts are served
+        // from the cache: a positive one has to run the proof again so that the derived
+        // facts are handed back to the caller (it stops early when they are already there).
+        let cache_key = if self.config.enable_memoization {
+            Some(format!(
+                "{}\u{0}{}",
+                query_str,
+                Self::facts_fingerprint(facts)
+            ))
+        } else {
+            None
+        };
+        if let Some(key) = &cache_key {
+            if let Some(false) = self.goal_manager.is_cached(key) {
+                return Ok(QueryResult::failure(vec![], QueryStats::default()));
             }
         }
 
@@ -157,9 +161,8 @@ impl BackwardEngine {
         };
 
         // Cache result if enabled
-        if self.config.enable_memoization {
-            self.goal_manager
-                .cache_result(query_str.to_string(), search_result.success);
+        if let Some(key) = cache_key {
+            self.goal_manager.cache_result(key, search_result.success);
         }
 
         // Build query result
@@ -181,6 +184,17 @@ impl BackwardEngine {
         } else {
             QueryResult::failure(self.find_missing_facts(&goal), stats)
         })
+    }
+
+    /// Canonical, order-independent rendering of the facts a verdict was computed on
+    fn facts_fingerprint(facts: &Facts) -> String {
+        let mut entries: Vec<String> = facts
+            .get_all_facts()
+            .iter()
+            .map(|(k, v)| format!("{}={:?}", k, v))
+            .collect();
+        entries.sort();
+        entries.join(";")
     }
 
     /// Find all candidate rules that could prove a goal
